@@ -308,8 +308,119 @@ def gen_ops(rng, tier, ctx=None):
     yield from gen_pred(rng, tier)
     yield from gen_mpn(rng, tier, T)
 
+def norm_divisors(rng, dn):
+    """normalised dn-limb divisors: the three special ones and random classes"""
+    bk = 1 << (64 * dn)
+    yield bk >> 1; yield bk - 1; yield (bk >> 1) + 1
+    yield rand_mag(rng, dn, "uniform") | (bk >> 1)
+    yield rand_mag(rng, dn, "runs") | (bk >> 1)
+    yield (bk >> 1) | ((1 << (64 * (dn - 1))) - 1)          # top limb 2^63, all ones below
+    yield (bk - 1) ^ ((1 << (64 * (dn - 2))) - 1) if dn > 2 else bk - 1   # two top limbs B-1, zeros below
+
+def dividends(rng, d, dn, qn):
+    """values < B^(dn+qn) built backwards from (q, d, r), plus dividends whose top limbs equal the divisor's"""
+    top = 1 << (64 * (dn + qn))
+    for q in quotients(rng, qn):
+        for r in (0, 1, d - 1, rng.randrange(d)):
+            n = q * d + r
+            if n < top: yield n
+    if qn >= 1:
+        yield (d << (64 * qn)) - 1 if (d << (64 * qn)) - 1 < top else top - 1        # q = B^qn - 1, r = d - 1 (n1 == d1 all the way)
+        yield min(top - 1, (d << (64 * qn)) + rng.getrandbits(64 * qn))             # qh = 1
+        yield min(top - 1, d << (64 * qn))                                           # qh = 1, rest zero
+        yield ((d >> 128) << (128 + 64 * qn)) | rng.getrandbits(64 * qn + 128) if dn > 2 else rng.getrandbits(64 * (dn + qn))   # top limbs equal, rest random
+        yield rng.getrandbits(64 * (dn + qn))
+        yield top - 1
+    else:
+        yield d; yield d - 1; yield min(top - 1, d + 1); yield rng.getrandbits(64 * dn)
+
 def gen_mpn(rng, tier, T):
-    return; yield
+    quick = tier == "quick"
+    V = lambda v, n: vec(limbs_of(v, n))
+    # --- public entry points: any divisor with a non-zero top limb
+    shapes = [(dn, qn) for dn in (1, 2, 3, 4, 5, 8) for qn in (0, 1, 2, 3, 7)]
+    cross = sorted(set(T.get(k, v) for k, v in (("DC_DIV_QR_THRESHOLD", 50), ("DC_DIVAPPR_Q_THRESHOLD", 21), ("DC_DIV_Q_THRESHOLD", 65))))
+    for c in cross:
+        for e in (-2, -1, 0, 1, 2):
+            for qn in (1, 3, c + e - 1, c + e, 2 * (c + e) + 1): shapes.append((c + e, max(qn, 0)))
+    shapes += [(dn, qn) for dn in (10, 20, 49, 51, 100, 200) for qn in (1, 2, 3)]
+    if not quick:
+        shapes += [(dn, qn) for dn in range(3, 70) for qn in (0, 1, 2, 3, 4, 5, 6, dn // 2, dn - 2, dn - 1, dn, dn + 1, 2 * dn)]
+        for k, v in (("INV_DIV_Q_THRESHOLD", 998), ("INV_DIV_QR_THRESHOLD", 1589)):
+            for e in (-2, 0, 2): shapes += [(T.get(k, v) + e, 3), (T.get(k, v) + e, T.get(k, v) + e + 1), (7, 2 * T.get(k, v) + e)]
+    for dn, qn in shapes:
+        ds = list(norm_divisors(rng, dn))
+        if quick and dn > 8: ds = [rng.choice(ds[:3]), ds[3], ds[4]]
+        for d0 in ds:
+            sh = rng.choice([0, 0, rng.randrange(1, 64)]) if dn > 1 or d0 >> 1 else 0
+            d = d0 >> sh
+            if d >> (64 * (dn - 1)) == 0: d = d0
+            ns = list(dividends(rng, d, dn, qn))
+            if quick and dn + qn > 12: ns = rng.sample(ns, min(4, len(ns)))
+            for n in ns:
+                nn = dn + qn
+                if qn >= 1 and n >> (64 * (nn - 1)) == 0 and rng.random() < 0.5: nn -= 1     # tdiv_qr writes nn-dn+1 limbs
+                if nn < dn: nn = dn
+                yield "mpn_tdiv_qr %s %s" % (V(n, nn), V(d, dn))
+                yield "mpn_tdiv_q %s %s" % (V(n, nn), V(d, dn))
+                if d == d0:
+                    yield "mpn_divrem %s %s %x" % (V(n, dn + qn), V(d, dn), rng.choice([0, 0, 0, 1, 2, 5]))
+    yield "mpn_tdiv_qr [1,2,3] []"; yield "mpn_tdiv_qr [] []"
+    # --- internal entry points: normalised divisors
+    def internal(ops, dn, qn):
+        ds = list(norm_divisors(rng, dn))
+        if quick and dn > 8: ds = [rng.choice(ds[:3]), ds[3], rng.choice(ds[4:])]
+        for d in ds:
+            ns = list(dividends(rng, d, dn, qn))
+            if quick and dn + qn > 12: ns = rng.sample(ns, min(5, len(ns)))
+            for n in ns:
+                for op in ops:
+                    if qn == 0 and "divappr" in op: continue        # the divappr functions store at least one quotient limb
+                    yield "%s %s %s" % (op, V(n, dn + qn), V(d, dn))
+    sb = ["mpn_sb_div_qr", "mpn_sb_divappr_q"]
+    for dn in [3, 4, 5, 6, 7, 9, 16, 33] + ([] if quick else list(range(10, 60, 7))):
+        for qn in [0, 1, 2, 3, dn - 1, dn, dn + 1, 2 * dn + 1] + ([] if quick else [5, 3 * dn]):
+            yield from internal(sb, dn, qn)
+    dcs = sorted(set(T.get(k, v) + e for k, v in (("DC_DIV_QR_THRESHOLD", 50), ("DC_DIVAPPR_Q_THRESHOLD", 21), ("INV_DIVAPPR_Q_N_THRESHOLD", 50)) for e in (-2, -1, 0, 1, 2)))
+    dc = ["mpn_dc_div_qr", "mpn_dc_divappr_q", "mpn_inv_div_qr", "mpn_inv_divappr_q", "mpn_sb_div_qr", "mpn_sb_divappr_q"]
+    for dn in [6, 7, 8, 13] + dcs + [100] + ([] if quick else [64, 65, 127, 128, 129, 200, 300]):
+        for qn in sorted(set([3, 4, 5, dn // 2, dn - 1, dn, dn + 1, dn + 2, 2 * dn, 2 * dn + 3] + ([] if quick else [3 * dn + 1, 5 * dn]))):
+            if qn < 3: continue
+            yield from internal(dc, dn, qn)
+    for dn in (6, 20):
+        for qn in (1, 2): yield from internal(["mpn_inv_divappr_q", "mpn_sb_div_qr"], dn, qn)
+    # --- Hensel division: odd divisors
+    bd = sorted(set(T.get(k, v) + e for k, v in (("DC_BDIV_QR_THRESHOLD", 54), ("DC_BDIV_Q_THRESHOLD", 19)) for e in (-1, 0, 1)))
+    for dn in [1, 2, 3, 4, 7] + bd + ([] if quick else [30, 110, 120]):
+        for qn in sorted(set([0, 1, 2, dn - 1, dn, dn + 1, 2 * dn, 2 * dn + 1, 3 * dn + 2])):
+            if qn < 0: continue
+            for cls in (["uniform", "ones"] if quick else ["uniform", "ones", "runs", "lowbit"]):
+                d = rand_mag(rng, dn, cls) | 1
+                n = rng.choice([rng.getrandbits(64 * (dn + qn)), rand_mag(rng, qn, "uniform") * d if qn else 0, (1 << (64 * (dn + qn))) - 1])
+                n &= (1 << (64 * (dn + qn))) - 1
+                yield "mpn_sb_bdiv_q %s %s" % (V(n, dn + qn), V(d, dn))
+                if dn >= 2 and qn >= 1: yield "mpn_dc_bdiv_qr %s %s" % (V(n, dn + qn), V(d, dn))
+    # --- exact division: low zero limbs / bits in d, even and odd quotients
+    for dn in [1, 2, 3, 6, 7, 8] + bd + ([] if quick else [30, 100, 200]):
+        for qn in (1, 2, 3, dn, 2 * dn + 1):
+            for _ in range(2 if quick else 4):
+                d = rand_mag(rng, dn) if rng.random() < 0.7 else (rand_mag(rng, max(dn - 1, 1)) << rng.randrange(1, 70)) & ((1 << (64 * dn)) - 1)
+                if d >> (64 * (dn - 1)) == 0: d |= 1 << (64 * (dn - 1))
+                q = rng.choice(list(quotients(rng, qn)))
+                n = q * d
+                nn = dn + qn - (1 if n >> (64 * (dn + qn - 1)) == 0 and rng.random() < 0.7 else 0)
+                yield "mpn_divexact %s %s" % (V(n, nn), V(d, dn))
+    # large exact divisions: the inv_divappr_q branch of mpn_divexact (qn or dn >= INV_DIV_QR_THRESHOLD, dn > 6);
+    # quotient B^qn - 1 with an unnormalised divisor makes the approximate quotient overflow
+    L = T.get("INV_DIV_QR_THRESHOLD", 1589)
+    for dn, qn in ((7, L + 1), (L, 3), (L + 1, L)) if not quick else ((7, L + 1), (L, 3)):
+        for sh in (0, 1, 37):
+            d = (rand_mag(rng, dn, "uniform") | (1 << (64 * dn - 1))) >> sh
+            for q in ((1 << (64 * qn)) - 1, rand_mag(rng, qn, "uniform"), rand_mag(rng, qn, "uniform") << 1, 1 << (64 * qn - 1)):
+                n = q * d
+                nn = max(dn, (n.bit_length() + 63) // 64)
+                yield "mpn_divexact %s %s" % (V(n, nn), V(d, dn))
+                yield "mpz_divexact 0 %s %s" % (hx(n), hx(-d))
 
 def nontrivial(line):
     return line if len(line) > 30 else None
